@@ -104,7 +104,7 @@ def wrap(gen, kind, inner, depth, files):
         head = [f + "{" + name + "}" + (" Title" if name == "admonition" else "")]
         o = {"none": [], "one": [":class: c"], "two": [":class: c", ":name: n" + gen.mk().lower()], "yaml": ["---", "class: c", "---"],
              "yamlblank": ["---", "class: c", "", "---"]}[opts]
-        pre = head + o + ([""] if blank_after == "1" else [])
+        pre = head + o + ([""] * int(blank_after))
         post = ([""] if blank_before == "1" else []) + [f]
         first = marks[0][0]
         inside = [(m, i + len(pre), k, *r) if not (r and r[0]) else (m, i, k, r[0]) for m, i, k, *r in marks]
@@ -112,8 +112,8 @@ def wrap(gen, kind, inner, depth, files):
     raise ValueError(kind)
 
 
-DIRS_FULL = [f"dir|{f}|{o}|{ba}|{bb}|{n}" for f in "`:" for o in ("none", "one", "two", "yaml", "yamlblank") for ba in "01" for bb in "01" for n in ("note", "admonition")]
-DIRS_SMALL = [f"dir|{f}|{o}|{ba}|{bb}|note" for f in "`:" for o in ("none", "one", "yaml") for ba, bb in (("0", "0"), ("1", "1"))]
+DIRS_FULL = [f"dir|{f}|{o}|{ba}|{bb}|{n}" for f in "`:" for o in ("none", "one", "two", "yaml", "yamlblank") for ba in "012" for bb in "01" for n in ("note", "admonition")]
+DIRS_SMALL = [f"dir|{f}|{o}|{ba}|{bb}|note" for f in "`:" for o in ("none", "one", "yaml") for ba, bb in (("0", "0"), ("1", "1"), ("2", "0"))]
 BASIC = ["quote", "bullet", "ordered", "div", "inc", "inc-start"]
 
 
@@ -191,7 +191,13 @@ class ShapeSystem(System):
                     ok = False  # a ':'-line directly after a ':key:' block is documented to belong to that block
             lines, marks = wrap(gen, wk, blk, depth, files)
             blk = (lines, [(m, i, k, (r[0] if r else None)) for m, i, k, *r in marks])
-        return ok, ["PRE paragraph", ""] + blk[0], [(m, (i + 2) if f is None else i, k, f) for m, i, k, f in blk[1]], files
+        lines = ["PRE paragraph", ""] + blk[0]
+        marks = [(m, (i + 2) if f is None else i, k, f) for m, i, k, f in blk[1]]
+        # a sibling paragraph AFTER the block, back in the main file (its line and its source must be the main file's)
+        tail = gen.mk().replace("MK", "TAILMK")
+        marks.append((tail, len(lines) + 1, "paragraph", None))
+        lines = lines + ["", tail + " tail paragraph"]
+        return ok, lines, marks, files
 
     def run(self, case):
         lk, ws = case
@@ -283,7 +289,7 @@ class ShapeSystem(System):
 def _first_marker(node):
     for t in node.findall(nodes.Text):
         for wd in t.astext().split():
-            if re.fullmatch(r"(sub)?MK\d+", wd):
+            if re.fullmatch(r"(sub|TAIL)?MK\d+", wd):
                 return wd
     return None
 
